@@ -269,6 +269,11 @@ func report(v *Verifier, prop, tier string, seed int64, verifDir string, reports
 			violations = append(violations, fmt.Sprintf("VIOLATION property=%s replay=%s no-failing-input-found", prop, path))
 		}
 	}
+	repByKey := map[string]*FuncReport{}
+	for _, rep := range reports {
+		repByKey[rep.Key] = rep
+	}
+	replays := 0
 	var perObl []map[string]any
 	var samples []any
 	knownSeen := map[string]bool{}
@@ -325,8 +330,28 @@ func report(v *Verifier, prop, tier string, seed int64, verifDir string, reports
 				entry["status"] = "known-finding"
 				continue
 			}
-			path := writeReplay(replayDir, prop, r.Name, fmt.Sprintf("obligation %s failed: solver answer %s (%s). %s", r.Name, r.Answer, r.Solver, r.Info), r.Model, r.Query)
+			what := fmt.Sprintf("obligation %s failed: solver answer %s (%s). %s", r.Name, r.Answer, r.Solver, r.Info)
 			suffix := " no-failing-input-found"
+			replayText := ""
+			if r.Answer == "sat" && replays < 2 {
+				replays++
+				wd, _ := os.MkdirTemp("", "govc-replay-")
+				text, confirmed, why := v.tryReplay(repByKey[r.Func], r, wd)
+				os.RemoveAll(wd)
+				replayText = text
+				if confirmed {
+					suffix = ""
+					what += "\nThe verifier's counterexample was replayed on the real code and the failure reproduces (test below)."
+				} else {
+					what += "\nCounterexample replay: " + why + "."
+				}
+			}
+			path := writeReplay(replayDir, prop, r.Name, what, r.Model, r.Query)
+			if replayText != "" {
+				f, _ := os.OpenFile(path, os.O_APPEND|os.O_WRONLY, 0o644)
+				f.WriteString("\n" + replayText + "\n--- go helper ---\n" + strings.Replace(evalHelperSrc, "PKGNAME", pkgNameOf(v, r.Func), 1) + "\n--- end go helper ---\n")
+				f.Close()
+			}
 			fmt.Printf("  failed %s: %s by %s %s\n", r.Name, r.Answer, r.Solver, r.Info)
 			violations = append(violations, fmt.Sprintf("VIOLATION property=%s replay=%s%s", prop, path, suffix))
 		}
@@ -407,6 +432,13 @@ var splitSuffix = regexp.MustCompile(`(\.\d+)+$`)
 func baseLabel(name string) string { return splitSuffix.ReplaceAllString(name, "") }
 
 const preambleTail = "(declare-fun ringidx (Int Int Int) Int)\n"
+
+func pkgNameOf(v *Verifier, key string) string {
+	if fd := v.decls[key]; fd != nil {
+		return fd.pkg.name
+	}
+	return "sse"
+}
 
 func round3(x float64) float64 { return float64(int64(x*1000+0.5)) / 1000 }
 
